@@ -43,6 +43,14 @@ func (f *File) Read(p []byte) (int, error) {
 	op := f.op(KFRead, false)
 	op.Len = len(p)
 	if inj := f.fs.before(op); inj != nil {
+		if inj.Short > 0 && inj.Short <= len(p) {
+			// an interrupted read: the first Short bytes are delivered TOGETHER with the error
+			n, _ := f.File.Read(p[:inj.Short])
+			op.N = n
+			op.Obs = string(p[:max(n, 0)])
+			f.fs.after(op, inj.Err)
+			return n, inj.Err
+		}
 		f.fs.after(op, inj.Err)
 		return 0, inj.Err
 	}
